@@ -802,12 +802,103 @@ Qed.
 
 End IterSec.
 
-(* ---------- statements relative to the abstract selection interface (tree_iface of DynIterTree.v) ----------
-   PARTIAL in the sense that the LoserTree is replaced by any tree_ok satisfying tree_iface;
-   DynIterMain.v instantiates them with the concrete loser-tree invariant when DynIterTree.tree_iface_holds exists. *)
-Definition iter_from_spec_partial := @iter_from_spec_gen.
-Definition size_spec_partial := @size_spec_gen.
-Definition empty_spec_partial := @empty_spec_gen.
-Print Assumptions iter_from_spec_partial.
-Print Assumptions size_spec_partial.
-Print Assumptions empty_spec_partial.
+(* ================================================================================================
+   Main theorems: the abstract selection interface is discharged by the concrete loser-tree invariant
+   tree_ok_c of DynIterTree.v (tree_iface_holds).
+   ================================================================================================ *)
+Require Import DynCoreTotal.
+
+Section MainIter.
+Context {P : Type} (ops : pgmops P) (kmax : Z).
+Hypothesis Hc : pgm_contract ops kmax.
+Hypothesis Hbuild0 : pg_build ops [] = Ok (pg_empty ops).
+Notation dynP := (@dyn P).
+Notation Inv := (DynCoreInv.Inv ops kmax).
+Notation ghist := (DynCoreRefine.ghist ops kmax).
+
+Let HT := tree_iface_holds kmax.
+Let Hempty := Hempty_of_build0 ops Hbuild0.
+
+(* range(lo, hi) = the entries of the map with lo <= key <= hi, in key order (proved in DynIterRange.v) *)
+Theorem range_spec : forall (d : dynP) m lo hi, Inv d -> sizes_ok d -> represents d m -> amsrt m ->
+  lo <= hi -> hi < kmax -> range ops d lo hi = Ok (am_range lo hi m).
+Proof. intros. eapply DynIterRange.range_spec; eauto. Qed.
+
+(* iterating from any lower_bound result visits exactly the live keys >= q, in strictly increasing order,
+   each once, with its current value, and reaches end() within the fuel total_items + 2 *)
+Theorem iter_from_spec : forall (d : dynP) m q r, Inv d -> sizes_ok d -> represents d m -> amsrt m ->
+  q < kmax -> lower_bound ops d q = Ok r -> to_list_from ops d (iter_of r) = Ok (am_from q m).
+Proof. intros. eapply (iter_from_spec_gen ops kmax Hc _ HT); eauto. Qed.
+
+(* begin() = lower_bound(kmin): iterating from it yields the whole map, when kmin <= every key *)
+Theorem begin_spec : forall (d : dynP) m kmin_, Inv d -> sizes_ok d -> represents d m -> amsrt m ->
+  kmin_ < kmax -> Forall (fun p => kmin_ <= fst p) m ->
+  exists b, dyn_begin ops d kmin_ = Ok b /\ to_list_from ops d b = Ok m.
+Proof.
+  intros d m q HI Hsz Hrep Hm Hq Hall. unfold dyn_begin.
+  destruct (lower_bound_fin ops kmax Hc d q HI Hsz Hq) as [r [Hlb _]]. rewrite Hlb. cbn [bind].
+  eexists. split; [reflexivity|]. rewrite (iter_from_spec d m q r HI Hsz Hrep Hm Hq Hlb).
+  rewrite am_from_all; auto.
+Qed.
+
+Theorem size_spec : forall (d : dynP) m kmin_, Inv d -> sizes_ok d -> represents d m -> amsrt m ->
+  kmin_ < kmax -> Forall (fun p => kmin_ <= fst p) m -> dyn_size ops d kmin_ = Ok (zlen m).
+Proof. intros. eapply (size_spec_gen ops kmax Hc _ HT); eauto. Qed.
+
+Theorem empty_spec : forall (d : dynP) m kmin_, Inv d -> sizes_ok d -> represents d m ->
+  kmin_ < kmax -> Forall (fun p => kmin_ <= fst p) m ->
+  dyn_empty ops d kmin_ = Ok (match m with [] => true | _ => false end).
+Proof. intros. eapply (empty_spec_gen ops kmax Hc); eauto. Qed.
+
+(* ---------------- C06 on histories ---------------- *)
+Theorem C06_range : forall (d : dynP) m lo hi, ghist d m -> sizes_ok d -> lo <= hi -> hi < kmax ->
+  range ops d lo hi = Ok (am_range lo hi m).
+Proof.
+  intros d m lo hi Hg Hsz Hle Hhi. pose proof (ghist_Inv ops kmax Hempty d m Hg) as HI.
+  destruct (ghist_represents ops kmax Hempty d m Hg) as [Hr Hm]. apply range_spec; auto.
+Qed.
+
+Theorem C06_iter : forall (d : dynP) m q, ghist d m -> sizes_ok d -> q < kmax ->
+  exists r, lower_bound ops d q = Ok r /\ to_list_from ops d (iter_of r) = Ok (am_from q m).
+Proof.
+  intros d m q Hg Hsz Hq. pose proof (ghist_Inv ops kmax Hempty d m Hg) as HI.
+  destruct (ghist_represents ops kmax Hempty d m Hg) as [Hr Hm].
+  destruct (lower_bound_fin ops kmax Hc d q HI Hsz Hq) as [r [Hlb _]]. exists r. split; auto.
+  apply iter_from_spec; auto.
+Qed.
+
+Theorem C06_begin : forall (d : dynP) m kmin_, ghist d m -> sizes_ok d -> kmin_ < kmax ->
+  Forall (fun p => kmin_ <= fst p) m ->
+  exists b, dyn_begin ops d kmin_ = Ok b /\ to_list_from ops d b = Ok m.
+Proof.
+  intros d m q Hg Hsz Hq Hall. pose proof (ghist_Inv ops kmax Hempty d m Hg) as HI.
+  destruct (ghist_represents ops kmax Hempty d m Hg) as [Hr Hm]. apply begin_spec; auto.
+Qed.
+
+Theorem C06_size : forall (d : dynP) m kmin_, ghist d m -> sizes_ok d -> kmin_ < kmax ->
+  Forall (fun p => kmin_ <= fst p) m -> dyn_size ops d kmin_ = Ok (zlen m).
+Proof.
+  intros d m q Hg Hsz Hq Hall. pose proof (ghist_Inv ops kmax Hempty d m Hg) as HI.
+  destruct (ghist_represents ops kmax Hempty d m Hg) as [Hr Hm]. apply size_spec; auto.
+Qed.
+
+Theorem C06_empty : forall (d : dynP) m kmin_, ghist d m -> sizes_ok d -> kmin_ < kmax ->
+  Forall (fun p => kmin_ <= fst p) m ->
+  dyn_empty ops d kmin_ = Ok (match m with [] => true | _ => false end).
+Proof.
+  intros d m q Hg Hsz Hq Hall. pose proof (ghist_Inv ops kmax Hempty d m Hg) as HI.
+  destruct (ghist_represents ops kmax Hempty d m Hg) as [Hr Hm]. apply empty_spec; auto.
+Qed.
+
+End MainIter.
+
+Print Assumptions range_spec.
+Print Assumptions iter_from_spec.
+Print Assumptions begin_spec.
+Print Assumptions size_spec.
+Print Assumptions empty_spec.
+Print Assumptions C06_range.
+Print Assumptions C06_iter.
+Print Assumptions C06_begin.
+Print Assumptions C06_size.
+Print Assumptions C06_empty.
